@@ -14,7 +14,7 @@ use flac_codec::metadata::{
 use serde_json::{json, Value};
 use std::num::NonZero;
 
-pub const RULE: &str = "(1) STREAMINFO: full product min/max block size {0,16,65535}² × min/max frame size {None,1,2^24-1}² × rate {0,1,2^20-1} × channels 1..8 × depth 1..32 × total {None,1,2^36-1} × md5 {None,Some} (373248 values) + all-zero md5 + 8 out-of-range literals; (2) every other block value alone behind a STREAMINFO: padding {0,1,2^24-1,2^24}; application id {0,'riff',2^32-1} × data length {0,1,2^24-5,2^24-4}; every seek-point sequence of length 0..3 over a 6-symbol alphabet (incl. placeholders and the 2^64-1 sample offset) + tables of 932067 / 932068 points; comments: 3 vendor strings × every entry sequence of length 0..3 over 7 entries (empty, no '=', multi-byte UTF-8, NUL, 2^16-byte value) + a 2^24-byte entry; pictures: 21 types × 3 media types × 3 descriptions × 3 dimension tuples × data length {0,1,70000} + Picture::new over PNG/JPEG/GIF for every type + 2^24-byte data; cue sheets through Cuesheet::parse and through the public variants/constructors: CD-DA tracks {1,2,99,100} × indices {1,2,99,100,101} × INDEX 00 yes/no × catalog {none,13} × 5 ISRC forms × pre-emphasis (× non-audio × lead-in {0,88200,2^64-1} for the constructor path), non-CD-DA tracks {1,2,254,255} × indices {1,2,255,256,257} × INDEX 00 × catalog {0,13,128,129} × 5 ISRC forms × pre-emphasis (× non-audio); (3) every ordered pair of 13 representative blocks (all 6×6 kind pairs) as a slice and through BlockList::insert; (4) invalid lists (no/late/duplicate STREAMINFO, two seek tables, two comments, two PNG icons, two general icons, oversize blocks in every position); each written list is checked by an independent header walk (types, last flag, length fields, total), bytes()/total_size() against a field-length model, BlockList::read, read_blocks, read_info and read_block::<T> for all 7 T against the typed originals, and by the converse read→write→read; (5) converse on foreign bytes: 10 small sections × every single-byte substitution, every accepted one is written again and re-read";
+pub const RULE: &str = "(1) STREAMINFO: full product min/max block size {0,16,65535}² × min/max frame size {None,1,2^24-1}² × rate {0,1,2^20-1} × channels 1..8 × depth 1..32 × total {None,1,2^36-1} × md5 {None,Some} (373248 values) + all-zero md5 + 8 out-of-range literals; (2) every other block value alone behind a STREAMINFO: padding {0,1,2^24-1,2^24}; application id {0,'riff',2^32-1} × data length {0,1,2^24-5,2^24-4}; every seek-point sequence of length 0..3 over a 6-symbol alphabet (incl. placeholders and the 2^64-1 sample offset) + tables of 932067 / 932068 points; comments: 3 vendor strings × every entry sequence of length 0..3 over 7 entries (empty, no '=', multi-byte UTF-8, NUL, 2^16-byte value) + a 2^24-byte entry; pictures: 21 types × 3 media types × 3 descriptions × 3 dimension tuples × data length {0,1,70000} + Picture::new over PNG/JPEG/GIF for every type + 2^24-byte data; cue sheets through Cuesheet::parse and through the public variants/constructors: CD-DA tracks {1,2,99,100} × indices {1,2,99,100,101} × INDEX 00 yes/no × catalog {none,13} × 5 ISRC forms × pre-emphasis (× non-audio × lead-in {0,88200,2^64-1} for the constructor path), non-CD-DA tracks {1,2,254,255} × indices {1,2,255,256,257} × INDEX 00 × catalog {0,13,128,129} × 5 ISRC forms × pre-emphasis (× non-audio); (3) every ordered pair of 13 representative blocks (all 6×6 kind pairs) as a slice and through BlockList::insert; (4) invalid lists (no/late/duplicate STREAMINFO, two seek tables, two comments, two PNG icons, two general icons, oversize blocks in every position); each written list is checked by an independent header walk (types, last flag, length fields, total), bytes()/total_size() against a field-length model, BlockList::read, read_blocks, read_info and read_block::<T> for all 7 T against the typed originals, and by the converse read→write→read; (5) converse on foreign bytes: 10 small sections × every single-byte substitution, every accepted one (by BlockList::read and by the block-by-block read_blocks) is written again and re-read; plus hand-assembled sequences the writer refuses to produce (every block kind duplicated, adjacent and separated; STREAMINFO not first): whatever a reader accepts must be writable again";
 pub const ASSUMPTIONS: &[&str] = &[
     "field values are taken from boundary menus (listed in the rule); strings/binary payloads use fixed fill patterns",
     "combination lists are limited to pairs of optional blocks behind one STREAMINFO",
@@ -1108,6 +1108,23 @@ fn foreign_case(bytes: &[u8]) -> (String, Findings) {
             if f.is_empty() { "accepted:rewritten-equal".to_string() } else { "accepted:VIOLATION".to_string() }
         }
     };
+    // the block-by-block reader is a reader too: whatever sequence it accepts in full must be writable again as it is
+    if let Ok(Ok(v)) = guarded(|| read_blocks(bytes).collect::<Result<Vec<Block>, _>>()) {
+        let kinds = v.iter().skip(1).map(|b| format!("{}", b.block_type())).collect::<Vec<_>>().join("+");
+        match guarded(|| {
+            let mut out = Vec::new();
+            write_blocks(&mut out, v.iter()).map(|()| out)
+        }) {
+            Err(p) => f.push((format!("converse|foreign|writer-panic@{}", panic_loc(&p)), format!("a sequence read_blocks accepted ({kinds}) makes write_blocks panic: {p}"))),
+            Ok(Err(e)) => f.push((format!("converse|foreign|accepted-sequence-not-writable|{}", err_name(&e)), format!("a sequence read_blocks accepted ({kinds}) is refused by write_blocks: {e:?}"))),
+            Ok(Ok(b2)) => match guarded(|| read_blocks(&b2[..]).collect::<Result<Vec<Block>, _>>()) {
+                Ok(Ok(v2)) if v2 == v => {}
+                Ok(Ok(_)) => f.push(("converse|foreign|rewritten-sequence-differs".to_string(), format!("read_blocks→write_blocks→read_blocks changes the sequence ({kinds})"))),
+                Ok(Err(e)) => f.push((format!("converse|foreign|rewritten-sequence-rejected|{}", err_name(&e)), format!("a sequence read_blocks accepted ({kinds}) was written again and is now rejected: {e:?}"))),
+                Err(p) => f.push((format!("converse|foreign|reader-panic@{}", panic_loc(&p)), format!("re-reading the rewritten sequence panics: {p}"))),
+            },
+        }
+    }
     (label, f)
 }
 
@@ -1143,7 +1160,83 @@ fn foreign(ctx: &Ctx, acc: &mut Acc) {
     }
 }
 
+/// Hand-assembled lists the crate's writer refuses to produce: every block kind duplicated (and STREAMINFO not first),
+/// assembled from the crate-written single blocks — whatever the reader accepts here must be writable again.
+fn duplicates(ctx: &Ctx, acc: &mut Acc) {
+    if ctx.shard != 0 {
+        return;
+    }
+    let split = |bytes: &[u8]| -> Vec<Vec<u8>> {
+        let mut v = Vec::new();
+        let mut p = 4;
+        while p + 4 <= bytes.len() {
+            let l = ((bytes[p + 1] as usize) << 16) | ((bytes[p + 2] as usize) << 8) | bytes[p + 3] as usize;
+            if p + 4 + l > bytes.len() {
+                break;
+            }
+            v.push(bytes[p..p + 4 + l].to_vec());
+            p += 4 + l;
+        }
+        v
+    };
+    let cue = |cdda: bool| CueSpec { parse: false, cdda, tracks: if cdda { 1 } else { 2 }, k: 2, idx0: true, catalog: 13, isrc: 1, pre: true, non_audio: true, lead_in: if cdda { 88200 } else { 0 } }.json();
+    let pic = |t: u64| json!({"t":"pic","ptype":t,"media":"image/png","desc":"d","w":32,"h":32,"depth":24,"colors":2,"len":4});
+    let singles: Vec<(&str, Value)> = vec![
+        ("si", std_si()),
+        ("vc", json!({"t":"vc","vendor":"v","fields":["A=b"]})),
+        ("seek", json!({"t":"seek","pts":[[0,0,16]]})),
+        ("png-icon", pic(1)),
+        ("general-icon", pic(2)),
+        ("cover", pic(3)),
+        ("app", json!({"t":"app","id":7,"len":1})),
+        ("pad", json!({"t":"pad","size":2})),
+        ("cue", cue(false)),
+    ];
+    let mut blocks: Vec<(&str, Vec<u8>)> = Vec::new();
+    for (n, spec) in &singles {
+        let list = if *n == "si" { vec![std_si()] } else { vec![std_si(), spec.clone()] };
+        if let Some(b) = base_bytes(&list) {
+            if let Some(last) = split(&b).pop() {
+                blocks.push((n, last));
+            }
+        }
+    }
+    let assemble = |seq: &[&Vec<u8>]| -> Vec<u8> {
+        let mut out = b"fLaC".to_vec();
+        for (i, b) in seq.iter().enumerate() {
+            let mut b = (*b).clone();
+            b[0] = (b[0] & 0x7F) | if i + 1 == seq.len() { 0x80 } else { 0 };
+            out.extend(b);
+        }
+        out
+    };
+    let si = blocks.iter().find(|b| b.0 == "si").map(|b| b.1.clone());
+    let Some(si) = si else { return };
+    let mut cases: Vec<(String, Vec<u8>)> = Vec::new();
+    for (n, b) in &blocks {
+        cases.push((format!("si+{n}+{n}"), assemble(&[&si, b, b])));
+        cases.push((format!("{n}+si"), assemble(&[b, &si])));
+        for (m, c) in &blocks {
+            if m != n && *n != "si" && *m != "si" {
+                cases.push((format!("si+{n}+{m}+{n}"), assemble(&[&si, b, c, b])));
+            }
+        }
+    }
+    for (name, bytes) in cases {
+        let (label, findings) = foreign_case(&bytes);
+        acc.states += 1;
+        acc.executions += 1;
+        acc.transitions += 3;
+        acc.dim("cases_converse_duplicates", 1);
+        acc.outcome(format!("converse-dup:{}:{label}", name.split('+').nth(1).unwrap_or("")));
+        for (clause, text) in findings {
+            acc.violation(format!("C11|{clause}"), format!("hand-assembled list '{name}': {text}"), json!({"kind":"c11-bytes","base":name,"pos":0,"value":0,"hex":hex(&bytes)}));
+        }
+    }
+}
+
 pub fn run(ctx: &Ctx, acc: &mut Acc) {
+    duplicates(ctx, acc);
     let t = std::time::Instant::now();
     streaminfo_product(ctx, acc);
     acc.dim("cpu_ms_streaminfo", t.elapsed().as_millis() as u64);
